@@ -261,7 +261,7 @@ def finalize(tier, classes):
 @st.composite
 def s_api(draw):
     n = draw(st.sampled_from(list(TAPS)))
-    kind = draw(st.sampled_from(["plain", "negative", "oversized", "npint", "zero", "default"]))
+    kind = draw(st.sampled_from(["plain", "negative", "oversized", "npint", "zero", "default", "huge", "zero-huge"]))
     base = draw(st.integers(1, 2 ** n - 1))
     mult = draw(st.integers(1, 1000))
     splits = draw(st.lists(st.integers(1, 700), min_size=1, max_size=6))
@@ -280,6 +280,12 @@ def e_api(c):
         seed = c["base"] + c["mult"] * 2 ** n
     elif kind == "npint":
         seed = np.int64(c["base"])
+    elif kind == "huge":            # Python integers around and far beyond the 64-bit limits (either sign)
+        seed = c["base"] + [2 ** 63, 2 ** 63 + 2 ** 40 * c["mult"], 2 ** 64 - 2 ** n, 2 ** 64, 2 ** 100, 1 << 14400, -(2 ** 63) - 2 ** n, -(1 << 20000)][c["mult"] % 8] // 2 ** n * 2 ** n
+    elif kind == "zero-huge":       # astronomically large multiples of 2^n: replaced by 1 with the warning, like any other zero seed
+        seed = [1 << 14400, -(1 << 20000), 3 << 64, 2 ** 63, 2 ** 64][c["mult"] % 5] // 2 ** n * 2 ** n
+        eff = 1
+        kind = "zero"
     elif kind == "zero":
         seed = (c["mult"] - 500) * 2 ** n
         eff = 1
